@@ -18,8 +18,9 @@ Written from the server-side documentation of EnvGen / Env:
   `times` and `curves` shorter than the number of segments are extended by
   wrapping around; a scalar stands for a one element list.
 
-Multichannel: when an item of levels/times is itself a list the envelope has
-as many channels as the longest inner list and channel c takes item[c % len].
+Multichannel: when an item of levels / times / curves is itself a list the
+envelope has as many channels as the longest inner list and channel c takes
+item[c % len] (names, numbers or both inside a nested curves entry).
 
 The second half are *predicates* for client-side evaluation (`value_ok`): they
 do not recompute segment shapes, they state what the property states - levels
@@ -68,9 +69,9 @@ def wrap_to(lst, n):
     return [lst[i % len(lst)] for i in range(n)]
 
 
-def channels_of(levels, times):
+def channels_of(levels, times, curves=()):
     n = 1
-    for x in list(levels) + list(times):
+    for x in list(levels) + list(times) + list(curves):
         if isinstance(x, list):
             n = max(n, len(x))
     return n
@@ -81,19 +82,21 @@ def pick(x, c):
 
 
 def encode(levels, times, curves='lin', release_node=None, loop_node=None):
-    """-> list (one per channel) of flat lists in the EnvGen array layout."""
+    """-> list (one per channel) of flat lists in the EnvGen array layout.
+    Items of levels, times and curves may themselves be lists (one entry per
+    channel, wrapped)."""
     nseg = len(levels) - 1
     times = wrap_to(as_list(times), nseg)
-    curves = as_list(curves)
+    curves = wrap_to(as_list(curves), nseg)
     out = []
-    for c in range(channels_of(levels, times)):
+    for c in range(channels_of(levels, times, curves)):
         lv = [pick(x, c) for x in levels]
         tm = [pick(x, c) for x in times]
         arr = [lv[0], nseg,
                ABSENT if release_node is None else release_node,
                ABSENT if loop_node is None else loop_node]
         for i in range(nseg):
-            shape, curv = shape_of(curves[i % len(curves)])
+            shape, curv = shape_of(pick(curves[i], c))
             arr += [lv[i + 1], tm[i], shape, curv]
         out.append(arr)
     return out
